@@ -210,6 +210,16 @@ def _gates(tier):
     yield dict(name="hyperv.holes.key_table_signature[1]", kind="magic", raw=rawh, off=0x11000, width=2, open=open_hv)
     yield dict(name="hyperv.holes.key_table_signature[2]", kind="magic", raw=rawh, off=0x12000, width=2, open=open_hv)
     yield dict(name="hyperv.holes.replay_log_signature", kind="magic", raw=rawh, off=0x9000, width=4, open=open_hv)
+    # object-table entries whose "allocated" byte is non-zero but not 1 (0x02, 0x80, 0xFE): the entry is in use
+    for alloc in (2, 0x80, 0xFE):
+        rawa = bytearray(BHV.build(tree3, ntables=3, extra_replay_log=True))
+        sig_, n_ = struct.unpack_from("<II", rawa, 0x2000)
+        for i_ in range(n_):
+            if rawa[0x2008 + 18 * i_ + 17] == 1:
+                rawa[0x2008 + 18 * i_ + 17] = alloc
+        rawa = bytes(rawa)
+        yield dict(name=f"hyperv.allocated-{alloc:#x}.key_table_signature", kind="magic", raw=rawa, off=0x11000, width=2, open=open_hv)
+        yield dict(name=f"hyperv.allocated-{alloc:#x}.replay_log_signature", kind="magic", raw=rawa, off=0x9000, width=4, open=open_hv)
     # more object-table entries than fit one 4 KiB block: the structure named by the last entry
     many = BHV.build({"configuration": (BHV.T_NODE, {f"k{i}": (BHV.T_INT, i) for i in range(245)})}, ntables=240)
     yield dict(name="hyperv.many.key_table_signature[239]", kind="magic", raw=many, off=0x10000 + 239 * 0x1000, width=2, open=open_hv)
@@ -243,6 +253,18 @@ def _gates(tier):
                open=open_env)
     yield dict(name="envelope.aead_footer_version", kind="numeric", raw=env, off=len(env) - 4, width=4, endian="<",
                accepted=lambda v: v == 1, open=open_env)
+    def open_env_noverify(raw):
+        from dissect.hypervisor.util.envelope import Envelope
+
+        return Envelope(io.BytesIO(raw), verify=False).decrypt(key)
+
+    # the same gates through the non-default constructor argument (what is supported does not depend on whether the tag will
+    # be checked)
+    yield dict(name="envelope.aead_footer_version.verify_false", kind="numeric", raw=env, off=len(env) - 4, width=4, endian="<",
+               accepted=lambda v: v == 1, open=open_env_noverify)
+    yield dict(name="envelope.version.verify_false", kind="numeric", raw=env, off=508, width=4, endian="<", accepted=lambda v: v == 2,
+               open=open_env_noverify)
+    yield dict(name="envelope.magic.verify_false", kind="magic", raw=env, off=0, width=21, open=open_env_noverify, thin=4)
     for drop in ("vmware.keyInfo", "vmware.cipherName", "vmware.keyHash", "vmware.iv"):
         attrs = [a for a in BE.standard_attrs(key, iv) if a[2] != drop]
         bad = BE.build(BE.det("p", 100), key, iv, attrs)[0]
